@@ -154,7 +154,7 @@ func c10(r *core.Run) {
 		if kind == "durable" {
 			// main durable-streams runs steer around the listed findings (D8): unlimited reads resumed from
 			// next offsets, per-event offsets not examined; the probes below keep reporting the findings
-			o.Limits, o.EventToks, o.NoHugeNumbers, o.Concurrent = []int{-1, 0}, false, true, 3
+			o.Limits, o.EventToks, o.NoHugeNumbers, o.Concurrent, o.ConcurrentAlways = []int{-1, 0}, false, true, 8, true
 			c10RunCfg(r, kind, n, o, "c10", 1000+uint64(i), "LogTrace_PartialOpaque.cfg")
 			continue
 		}
